@@ -958,14 +958,31 @@ def sweep_configs(tier):
     # one- or two-line windows that uniform random schedules almost never hit.
     pos = sorted(set(p_ + d_ for p_ in G["event_steps"][model] for d_ in (1, 2)))
     triples = [(i, j, k) for i in pos for j in pos for k in pos]
-    if tier == "quick":
-        triples = random.Random(18).sample(triples, min(500, len(triples)))
+    triples = random.Random(18).sample(triples, min(300 if tier == "quick" else 4000, len(triples)))
     big = 3 * solo
     for (i, j, k) in triples:
         cfg = base_config([{"name": "P%d" % n_, "loads": [[model, "double"]], "start_at": 0} for n_ in range(3)])
         cfg["cc_plans"] = [{"cuts": [0.5], "mode": "append", "fail": None}] * 3
         cfg["fixed_schedule"] = ["P0"] * i + ["P1"] * j + ["P0"] * big + ["P1"] * k + ["P2"] * big + ["P1"] * big
         cfg["family"] = "triple_after_events"
+        out.append(cfg)
+    # three processes each stopped at a point of interest, then serialised: P0 runs a steps
+    # (a: while its compiler runs), P1 b steps, P2 c steps, P0 finishes, P1 advances into its
+    # own compile (absolute position b2), P2 finishes, P1 finishes.  This is the shape of
+    # lock-file and claim-directory races (lookup, claim and release interleaved three ways).
+    ev = G["event_steps"][model]
+    cc_steps = [p_ for p_ in ev if p_ >= (min(ev) + 1)]
+    mids = sorted(set(pos[len(pos) // 2:len(pos) // 2 + 6]))        # positions inside the compile
+    a_choices = mids[:2]
+    quads = [(a_, b_, c_, b2) for a_ in a_choices for b_ in pos for c_ in pos for b2 in mids[1:4] if b2 > b_]
+    if tier == "quick":
+        quads = random.Random(19).sample(quads, min(500, len(quads)))
+    for (a_, b_, c_, b2) in quads:
+        cfg = base_config([{"name": "P%d" % n_, "loads": [[model, "double"]], "start_at": 0} for n_ in range(3)])
+        cfg["cc_plans"] = [{"cuts": [0.5], "mode": "append", "fail": None}] * 3
+        cfg["fixed_schedule"] = (["P0"] * a_ + ["P1"] * b_ + ["P2"] * c_ + ["P0"] * big + ["P1"] * (b2 - b_)
+                                 + ["P2"] * big + ["P1"] * big)
+        cfg["family"] = "three_staggered"
         out.append(cfg)
     # a parent that has built another model, then forks two workers that race on this one
     other = "sphere" if model != "sphere" else "cylinder"
